@@ -211,11 +211,21 @@ class TheoryOracle(walkers.DagWalker):
         def is_leaf(f):
             return f.is_symbol() or len(f.get_free_variables()) == 0
 
+        # Nested if-then-elses are followed only up to a fixed number
+        # of steps: beyond that, the relation is not taken for a
+        # difference constraint
+        budget = [64]
+        class TooManyBranches(Exception):
+            pass
+
         def signs(f, sign):
             # The signs of the symbols of a leaf or of a difference
             # of leaves, for each way of choosing the branches of the
             # if-then-elses on top of them; None if the term has
             # another shape
+            budget[0] -= 1
+            if budget[0] < 0:
+                raise TooManyBranches()
             if f.is_symbol():
                 return [[sign]]
             if len(f.get_free_variables()) == 0:
@@ -231,17 +241,30 @@ class TheoryOracle(walkers.DagWalker):
             return None
 
         def mentions_minus(f):
-            while f.is_ite():
-                if mentions_minus(f.arg(1)):
+            # (a difference on top of f or below its if-then-elses)
+            todo = [f]
+            while todo:
+                budget[0] -= 1
+                if budget[0] < 0:
+                    raise TooManyBranches()
+                g = todo.pop()
+                if g.is_ite():
+                    todo.extend((g.arg(1), g.arg(2)))
+                elif g.is_minus():
                     return True
-                f = f.arg(2)
-            return f.is_minus()
+            return False
 
         if formula.is_minus():
             return all(is_leaf(a) for a in formula.args())
-        if (formula.is_le() or formula.is_lt() or formula.is_equals()) and \
-           (mentions_minus(formula.arg(0)) or mentions_minus(formula.arg(1))):
-            left, right = signs(formula.arg(0), 1), signs(formula.arg(1), -1)
+        if formula.is_le() or formula.is_lt() or formula.is_equals():
+            try:
+                if not (mentions_minus(formula.arg(0)) or
+                        mentions_minus(formula.arg(1))):
+                    return True
+                budget[0] = 64
+                left, right = signs(formula.arg(0), 1), signs(formula.arg(1), -1)
+            except TooManyBranches:
+                return False
             if left is None or right is None:
                 return True
             for l in left:
